@@ -171,11 +171,41 @@ func (l *localFS) Put(ctx context.Context, key string, source io.Reader, exclusi
 	if exclusive {
 		flag |= os.O_EXCL
 	}
+	// A retried write must start again from where the source stood: a source that can seek is
+	// rewound, a plain reader that a failed attempt has consumed cannot be written again.
+	var (
+		seeker   io.Seeker
+		startPos int64
+		attempts int
+	)
+	if sk, isSeeker := source.(io.Seeker); isSeeker {
+		if pos, e := sk.Seek(0, io.SeekCurrent); e == nil {
+			seeker, startPos = sk, pos
+		}
+	}
+	rewind := func(canRestart bool) error {
+		attempts++
+		if attempts == 1 {
+			return nil
+		}
+		if seeker != nil {
+			_, e := seeker.Seek(startPos, io.SeekStart)
+			return e
+		}
+		if canRestart {
+			return nil
+		}
+		return backoff.Permanent(fmt.Errorf("the source of %q cannot be read again", key))
+	}
 	// If reader implements writeto use it.
 	wt, ok := source.(io.WriterTo)
 	if ok {
 		// wrapping WriteTo execution so it can be retried
 		operation := func() error {
+			// (a WriterTo that cannot seek is taken to write its whole content on every call)
+			if e := rewind(true); e != nil {
+				return e
+			}
 			target, err = l.fs.OpenFile(key, flag, 0600)
 			if err != nil {
 				return fmt.Errorf("create record for %q: %v", key, err)
@@ -211,6 +241,12 @@ func (l *localFS) Put(ctx context.Context, key string, source io.Reader, exclusi
 	} else {
 		// wrapping PipeIO execution so it can be retried
 		operation := func() error {
+			if e := rewind(false); e != nil {
+				if err != nil {
+					return backoff.Permanent(err) // report the write error that consumed the source
+				}
+				return e
+			}
 			target, err = l.fs.OpenFile(key, flag, 0600)
 			if err != nil {
 				return fmt.Errorf("create record for %q: %v", key, err)
